@@ -200,6 +200,13 @@ func verifHarness_C14_roundtrip() {
 	} else {
 		b, merr := s.Marshal()
 		verifAssert(merr == nil, "C14:serialising-a-schema-succeeds")
+		// the bytes belong to the caller: serialising other schemas afterwards
+		// (shorter, equally long, longer) does not change them
+		keep := append([]byte(nil), b...)
+		for _, o := range []Schema{{Type: "long"}, s, {Type: "array", Object: &SchemaObject{Items: s}}} {
+			_, _ = o.Marshal()
+		}
+		verifAssert(bytes.Equal(keep, b), "C14:serialised-bytes-stay-what-they-were")
 		wellFormed = jsontext.Value(b).IsValid()
 		text := verifReorderJSON(b, variant)
 		var err error
